@@ -318,3 +318,117 @@ Proof.
   - intros n Hne. rewrite find_set_def. simpl. rewrite Hn.
     destruct (String.eqb_spec n (d_name d)); [contradiction | auto].
 Qed.
+
+(* ------------------------------------------------------------------ _remove_unused = reachability *)
+Inductive Reach (l : list defn) (roots : list string) : string -> Prop :=
+| R_root x : In x roots -> Reach l roots x
+| R_step x y : Reach l roots x -> In y (rule_deps l x) -> Reach l roots y.
+
+Lemma reach_incl fuel l v x : In x v -> In x (reach fuel l v).
+Proof.
+  revert v. induction fuel as [|f IH]; simpl; intros v H; auto.
+  destruct (dedup _) eqn:E; auto. apply IH. apply in_or_app. now left.
+Qed.
+
+Lemma reach_sound l roots fuel v :
+  (forall x, In x v -> Reach l roots x) -> forall x, In x (reach fuel l v) -> Reach l roots x.
+Proof.
+  revert v. induction fuel as [|f IH]; simpl; intros v Hv x Hx; auto.
+  destruct (dedup _) as [|n new] eqn:E; auto.
+  apply (IH (v ++ n :: new)%list); auto.
+  intros y Hy. apply in_app_or in Hy. destruct Hy as [Hy|Hy]; auto.
+  rewrite <- E in Hy. apply (proj1 (dedup_In _ _)) in Hy. apply filter_In in Hy. destruct Hy as [Hy _].
+  apply in_flat_map in Hy. destruct Hy as (z & Hz & Hyz).
+  apply R_step with (x := z); auto.
+Qed.
+
+Lemma closed_complete l roots v :
+  closed_under l v = true -> (forall x, In x roots -> In x v) ->
+  forall x, Reach l roots x -> In x v.
+Proof.
+  intros Hc Hr x H. induction H as [x Hx|x y Hxy IH Hy]; auto.
+  unfold closed_under in Hc. rewrite forallb_forall in Hc. specialize (Hc _ IH).
+  rewrite forallb_forall in Hc. apply mem_In. now apply Hc.
+Qed.
+
+Theorem remove_unused_is_reachability l used kept :
+  remove_unused l used = Ok kept ->
+  kept = filter (fun d => mem (d_name d)
+                   (reach (List.length used + total_syms l + 1) l (dedup used))) l /\
+  (forall d, In d kept <-> In d l /\ Reach l used (d_name d)).
+Proof.
+  unfold remove_unused. set (v := reach _ l (dedup used)).
+  destruct (closed_under l v) eqn:Hc; [|discriminate]. intros H; inversion H; subst kept; clear H.
+  split; auto. intros d. rewrite filter_In. rewrite mem_In.
+  assert (Hs : forall x, In x v -> Reach l used x).
+  { apply reach_sound. intros x Hx. apply (proj1 (dedup_In _ _)) in Hx. now apply R_root. }
+  assert (Hk : forall x, Reach l used x -> In x v).
+  { apply closed_complete; auto. intros x Hx. apply reach_incl. now apply (proj2 (dedup_In _ _)). }
+  split; intros [H1 H2]; split; auto.
+Qed.
+
+(* ------------------------------------------------------------------ sequences of plain definitions *)
+Definition define_all (g : bool) (ls : list layer) (ds : list defn) (l : list defn) : result (list defn) :=
+  fold_left (fun acc d => l' <- acc ;; define g false (mangle_def ls d) l') ds (Ok l).
+
+Lemma define_all_err g ls ds e :
+  fold_left (fun acc d => l' <- acc ;; define g false (mangle_def ls d) l') ds (Err e) = Err e.
+Proof. induction ds; simpl; auto. Qed.
+
+Lemma define_all_spec g ls ds : forall l l',
+  define_all g ls ds l = Ok l' ->
+  l' = (l ++ map (fun d => norm_def g (mangle_def ls d)) ds)%list /\
+  NoDup (map (fun d => mangle ls (d_name d)) ds) /\
+  (forall d, In d ds -> defined (mangle ls (d_name d)) l = false).
+Proof.
+  unfold define_all. induction ds as [|d ds IH]; simpl; intros l l' H.
+  - inversion H. rewrite app_nil_r. repeat split; auto. constructor. intros d [].
+  - destruct (define g false (mangle_def ls d) l) as [l1|e] eqn:E.
+    2:{ rewrite define_all_err in H. discriminate. }
+    apply define_ok in E. destruct E as (-> & Hd & _). simpl in Hd.
+    rewrite set_def_undefined in H by (simpl; auto).
+    apply IH in H. destruct H as (-> & Hnd & Hfresh).
+    split; [now rewrite <- app_assoc|]. split.
+    + constructor; auto. intros Hin. apply in_map_iff in Hin. destruct Hin as (d' & Heq & Hd').
+      specialize (Hfresh _ Hd'). rewrite Heq in Hfresh.
+      assert (defined (mangle ls (d_name d)) (l ++ [norm_def g (mangle_def ls d)]) = true).
+      { apply defined_In. rewrite map_app. apply in_or_app. right. simpl. now left. }
+      congruence.
+    + intros d' [<-|Hd']; auto. specialize (Hfresh _ Hd').
+      destruct (defined (mangle ls (d_name d')) l) eqn:E; auto.
+      apply defined_In in E.
+      assert (defined (mangle ls (d_name d')) (l ++ [norm_def g (mangle_def ls d)]) = true).
+      { apply defined_In. rewrite map_app. apply in_or_app. now left. }
+      congruence.
+Qed.
+
+Lemma NoDup_map_inj {A B} (f : A -> B) l x y :
+  NoDup (map f l) -> In x l -> In y l -> f x = f y -> x = y.
+Proof.
+  induction l as [|a r IH]; simpl; [tauto|]. intros Hnd Hx Hy Hf. inversion Hnd as [|? ? Hn Hr]; subst.
+  destruct Hx as [->|Hx], Hy as [->|Hy]; auto.
+  - elim Hn. rewrite Hf. now apply in_map.
+  - elim Hn. rewrite <- Hf. now apply in_map.
+Qed.
+
+(* where the builder accepts a module, the mangle is injective on the names the module defines;
+   otherwise _define raises ('defined more than once') *)
+Theorem mangle_injective_or_error g ls ds l :
+  (exists l', define_all g ls ds l = Ok l' /\
+     forall d d', In d ds -> In d' ds -> mangle ls (d_name d) = mangle ls (d_name d') -> d = d') \/
+  (exists e, define_all g ls ds l = Err e).
+Proof.
+  destruct (define_all g ls ds l) as [l'|e] eqn:E; [left|right; eauto].
+  exists l'. split; auto. apply define_all_spec in E. destruct E as (_ & Hnd & _).
+  intros d d' Hd Hd' Heq.
+  apply (NoDup_map_inj (fun d => mangle ls (d_name d)) ds); auto.
+Qed.
+
+(* two distinct names of a module that collide under the mangle make the builder fail *)
+Corollary mangle_collision_is_error g ls ds l d d' :
+  In d ds -> In d' ds -> d_name d <> d_name d' -> mangle ls (d_name d) = mangle ls (d_name d') ->
+  exists e, define_all g ls ds l = Err e.
+Proof.
+  intros Hd Hd' Hne Heq. destruct (mangle_injective_or_error g ls ds l) as [(l' & _ & H)|H]; auto.
+  elim Hne. now rewrite (H d d' Hd Hd' Heq).
+Qed.
